@@ -89,13 +89,13 @@ func LengthEncodedString(data []byte) ([]byte, int, error) {
 		return nil, n, err
 	}
 
-	n += int(num)
-
-	// Check data length
-	if len(data) >= n {
-		return data[n-int(num) : n], n, nil
+	// Check data length. num comes from the packet: compare it with what is left before adding,
+	// so that huge values cannot wrap
+	if num > uint64(len(data)-n) {
+		return nil, n, io.EOF
 	}
-	return nil, n, io.EOF
+	n += int(num)
+	return data[n-int(num) : n], n, nil
 }
 
 // SkipLengthEncodedString https://dev.mysql.com/doc/internals/en/string.html#packet-Protocol::LengthEncodedString
@@ -108,12 +108,12 @@ func SkipLengthEncodedString(data []byte) (int, error) {
 		return n, nil
 	}
 
-	n += int(num)
-
-	if len(data) >= n {
-		return n, nil
+	// num comes from the packet: compare it with what is left before adding, so that huge values cannot wrap
+	if num > uint64(len(data)-n) {
+		return n, io.EOF
 	}
-	return n, io.EOF
+	n += int(num)
+	return n, nil
 }
 
 // PutLengthEncodedInt https://dev.mysql.com/doc/internals/en/integer.html#packet-Protocol::LengthEncodedInteger
